@@ -571,31 +571,85 @@ def is_pow2(p):
     return p > 0 and (p & (p - 1)) == 0
 
 
+def snapshot(x, bits=False):
+    """what a caller can observe of an operand: components + flags, and (bits=True) its encodings in all three formats"""
+    snap = fp2s(x)
+    if bits:
+        snap += ' | ' + ' '.join(i2s(real(x.convert, f)) for f in ('hp', 'sp', 'dp'))
+    return snap
+
+
 def oracle_arith(res, H, st, a, b, specq):
-    """exact sums/differences/products and rational order, on the implementation's results"""
+    """exact sums/differences/products and rational order, on the implementation's results; and PURITY: neither operand
+    is modified by any operation (snapshot before, compare after every call; the same objects are then re-used in a chain
+    of operations, as user code would, and re-observed at the end incl. their convert() bits)"""
     A, B = fp2s(a), fp2s(b)
+    same_obj = a is b
+    a0, b0 = list(a.components()), list(b.components())
+    bits0 = (snapshot(a, True), snapshot(b, True))
+
+    def purity(op):
+        sa, sb = fp2s(a), fp2s(b)
+        if sa != A or sb != B:
+            fail(res, f'FPNum{tuple(a0)}.{op}(FPNum{tuple(b0)}) modified its operands: self {A} -> {sa}, argument {B} -> {sb}',
+                 dict(kind='fpnum-purity', op=op, a=a0, b=b0, self_after=sa, arg_after=sb))
+            return False
+        return True
     # the type's invariant: precisions are powers of two (all constructors from encodings / floats and the arithmetic
     # itself keep it; with another p the code's own assert(a.p == b.p) can fail -> correspondence only, see notes)
     fin = is_finite_fp(a) and is_finite_fp(b) and is_pow2(a.p) and is_pow2(b.p)
     va, vb = (fpnum_value(a), fpnum_value(b)) if fin else (None, None)
-    for op, fn, pyop in (('add', a.add, lambda: va + vb), ('sub', a.sub, lambda: va - vb), ('mul', a.mul, lambda: va * vb)):
-        r = real(fn, b)
+    pure = True
+    results = {}
+    for op, pyop in (('add', lambda: va + vb), ('sub', lambda: va - vb), ('mul', lambda: va * vb)):
+        r = real(getattr(a, op), b)
+        results[op] = r
         st.add('fpnum-' + op, f'fp{op} | {A} | {B}', fp2s(r), (A, B))
+        pure = purity(op) and pure
         if fin:
             good = is_finite_fp(r) and fpnum_value(r) == pyop()
             if not good:
-                fail(res, f'FPNum{a.components()}.{op}(FPNum{b.components()}) = {r if isinstance(r, str) else r.components()}: not the exact {op}',
-                     dict(kind='fpnum-arith', op=op, a=list(a.components()), b=list(b.components()), observed=fp2s(r)))
+                fail(res, f'FPNum{tuple(a0)}.{op}(FPNum{tuple(b0)}) = {r if isinstance(r, str) else r.components()}: not the exact {op}',
+                     dict(kind='fpnum-arith', op=op, a=a0, b=b0, observed=fp2s(r)))
             if is_finite_fp(r):
                 specq.append((f'spec-arith {op} | {A} | {B} | {fp2s(r)}', '1' if good else '0', (op, A, B)))
     c = real(a.compare, b)
     st.add('fpnum-compare', f'fpcmp | {A} | {B}', i2s(c), (A, B))
+    pure = purity('compare') and pure
     if fin:
         exp = (va > vb) - (va < vb)
         specq.append((f'spec-cmp | {A} | {B}', str(exp), ('cmp', A, B)))
         if c != exp:
-            fail(res, f'FPNum{a.components()}.compare(FPNum{b.components()}) = {c}, rationals compare {exp}',
-                 dict(kind='fpnum-compare', a=list(a.components()), b=list(b.components()), observed=c, expected=exp))
+            fail(res, f'FPNum{tuple(a0)}.compare(FPNum{tuple(b0)}) = {c}, rationals compare {exp}',
+                 dict(kind='fpnum-compare', a=a0, b=b0, observed=c, expected=exp))
+    # chain on the SAME objects: (a+b)-b = a, b+a = a+b, (a-b)+b = a, (a*b) compared with itself via b*a
+    if fin and pure:
+        chain = []
+        for name, fn, want in (
+                ('(a+b)-b', lambda: results['add'].sub(b), va),
+                ('b+a', lambda: b.add(a), va + vb),
+                ('(a-b)+b', lambda: results['sub'].add(b), va),
+                ('b*a', lambda: b.mul(a), va * vb),
+                ('b-a', lambda: b.sub(a), vb - va)):
+            r = real(fn)
+            ok_ = is_finite_fp(r) and fpnum_value(r) == want
+            chain.append(name)
+            if not ok_:
+                fail(res, f'chain {name} on a=FPNum{tuple(a0)}, b=FPNum{tuple(b0)} gives {r if isinstance(r, str) else r.components()}, not the exact result',
+                     dict(kind='fpnum-purity', op='chain:' + name, a=a0, b=b0, observed=fp2s(r)))
+            if not purity('chain:' + name):
+                pure = False
+                break
+        c2 = real(b.compare, a)
+        if c2 != -((va > vb) - (va < vb)):
+            fail(res, f'FPNum{tuple(b0)}.compare(FPNum{tuple(a0)}) = {c2} after the chain', dict(kind='fpnum-compare', a=b0, b=a0, observed=c2))
+        pure = purity('chain:compare') and pure
+    # what the caller sees of both operands afterwards, including their encodings
+    bits1 = (snapshot(a, True), snapshot(b, True))
+    if pure and bits1 != bits0:
+        fail(res, f'operands FPNum{tuple(a0)}, FPNum{tuple(b0)} encode differently after add/sub/mul/compare: {bits0} -> {bits1}',
+             dict(kind='fpnum-purity', op='convert-after', a=a0, b=b0, before=list(bits0), after=list(bits1)))
+    res.hist('purity_checked', 'same-object' if same_obj else 'distinct')
 
 
 def run_arith(res, tier, rng, H, st, pool):
@@ -718,7 +772,7 @@ def replay_case(res, H, st, rc):
         oracle_fpnum_enc(res, H, st, rc['fmt'], rc['bits'])
     elif k in ('fph-encode', 'fph-decode'):
         oracle_fph(res, H, st, rc['fmt'], rc['bits'])
-    elif k in ('fpnum-compare', 'fpnum-arith'):
+    elif k in ('fpnum-compare', 'fpnum-arith', 'fpnum-purity'):
         oracle_arith(res, H, st, mk(rc['a']), mk(rc['b']), [])
     elif k == 'fpnum-float':
         b = rc['bits']
